@@ -131,9 +131,38 @@ def replace_random_leaf(rng, root, raw_text):
     return root
 
 
+def long_text_cases(rng, quick):
+    """patterns in which ONE token or expression is long (around 2^8, 2^10, 2^12 and 2^16 bytes) and holds characters of 1 to 4 bytes
+    at every alignment: whatever the macro does with the text of a pattern (stores it, abbreviates it, hashes it, compares it) it
+    does to these too.  Valid input: must be accepted."""
+    wrappers = ["v, \"%s\"", "v, == \"%s\"", "v, != f(\"%s\", 1)", "v, =~ r\"%s\"", "v, =~ mk(\"%s\")", "v, |cl_x| cl_x == \"%s\"",
+                "v, S { a: \"%s\", b: == \"%s\", .. }", "v, #{ \"%s\": 1, .. }", "v, Some([\"%s\", ..])", "v, #(\"%s\", ..)", "v, f(\"%s\")",
+                "v, (0: \"%s\", _)", "v, _ { a.get(\"%s\"): Some(1), .. }"]
+    units = ["é", "日", "😀", "aé", "日b", "a😀", "éa日😀"]
+    sizes = [255, 256, 257, 1023, 1024, 1025, 4095, 4096, 4097] + ([] if quick else [16384, 65535, 65536, 65537])
+    out = []
+    for n in sizes:
+        for shift in range(4):
+            u = rng.choice(units) if quick else None
+            for unit in ([u] if quick else units):
+                body = "a" * shift
+                while len(body.encode("utf-8")) < n + 8:
+                    body += unit
+                w = rng.choice(wrappers) if quick else None
+                for wr in ([w] if quick else rng.sample(wrappers, 4)):
+                    out.append(wr.replace("%s", body))
+    # the same with an identifier / path instead of a literal
+    for n in (255, 1024, 4096):
+        out.append("v, == " + "größe_" * (n // 7))
+        out.append("v, " + "::".join(["größe_" * (n // 140)] * 20) + "::S { a: 1, .. }")
+    return out
+
+
 def corpus(rng, tier):
     """list of (text, origin, malformation class or None)"""
     out = []
+    for t in long_text_cases(random.Random(rng.random()), tier == "quick"):
+        out.append((t, "long-text", None))
     for t in SPECIAL_VALID:
         out.append((t, "special", None))
     for t in BIG_INDEX:
